@@ -47,6 +47,11 @@ def run_demo(demo, src):
 
 
 def main():
+    offset = 0
+    for a in list(sys.argv):
+        if a.startswith("--offset="):
+            offset = int(a.split("=")[1])
+            sys.argv.remove(a)
     out = sys.argv[1]
     m = re.search(r"brk_(c\d+)_out", out)
     assert m, "directory must be named brk_cNN_out (the property the breaker was given)"
@@ -56,7 +61,7 @@ def main():
         k = re.search(r"change_(\d+)\.diff", diff).group(1)
         demo = os.path.join(out, "demo_%s.py" % k)
         notes = os.path.join(out, "notes_%s.md" % k)
-        sid = "%s-%s" % (pid, k)
+        sid = "%s-%d" % (pid, int(k) + offset)
         w = worktree()
         meta = {"id": sid, "property": pid, "source": "independent sub-agent given only the property text", "confirmed": False,
                 "evaluated_at_repo_commit": sh("git -C /repo log --format=%h -1").stdout.strip()}
